@@ -46,9 +46,9 @@ func (s *vC07stream) Read(b []byte) (int, error) {
 	return n, nil
 }
 func (s *vC07stream) Write(b []byte) (int, error) { return len(b), nil }
-func (s *vC07stream) Close() error                 { s.log = append(s.log, "close"); return nil }
-func (s *vC07stream) CloseWrite() error            { s.log = append(s.log, "closewrite"); return nil }
-func (s *vC07stream) Reset() error                 { s.resets++; return nil }
+func (s *vC07stream) Close() error                { s.log = append(s.log, "close"); return nil }
+func (s *vC07stream) CloseWrite() error           { s.log = append(s.log, "closewrite"); return nil }
+func (s *vC07stream) Reset() error                { s.resets++; return nil }
 func (s *vC07stream) ResetWithError(network.StreamErrorCode) error {
 	s.resets++
 	return nil
@@ -60,10 +60,13 @@ func (s *vC07stream) SetDeadline(time.Time) error {
 	}
 	return nil
 }
-func (s *vC07stream) SetReadDeadline(time.Time) error { s.log = append(s.log, "readdeadline"); return nil }
-func (s *vC07stream) Conn() network.Conn              { return vC07conn{} }
-func (s *vC07stream) ID() string                      { return "s1" }
-func (s *vC07stream) Protocol() protocol.ID           { return s.proto }
+func (s *vC07stream) SetReadDeadline(time.Time) error {
+	s.log = append(s.log, "readdeadline")
+	return nil
+}
+func (s *vC07stream) Conn() network.Conn    { return vC07conn{} }
+func (s *vC07stream) ID() string            { return "s1" }
+func (s *vC07stream) Protocol() protocol.ID { return s.proto }
 func (s *vC07stream) SetProtocol(p protocol.ID) error {
 	if s.setProtoFail {
 		return errors.New("resource limit exceeded")
@@ -143,10 +146,19 @@ type vC07lazy struct {
 	log *[]string
 }
 
-func (l *vC07lazy) Read(b []byte) (int, error)  { *l.log = append(*l.log, "lazy-read"); return 0, io.EOF }
-func (l *vC07lazy) Write(b []byte) (int, error) { *l.log = append(*l.log, "lazy-write"); return len(b), nil }
-func (l *vC07lazy) Close() error                { *l.log = append(*l.log, "lazy-close"); return nil }
-func (l *vC07lazy) Flush() error                { *l.log = append(*l.log, "flush"); return errors.New("remote closed for reading") }
+func (l *vC07lazy) Read(b []byte) (int, error) {
+	*l.log = append(*l.log, "lazy-read")
+	return 0, io.EOF
+}
+func (l *vC07lazy) Write(b []byte) (int, error) {
+	*l.log = append(*l.log, "lazy-write")
+	return len(b), nil
+}
+func (l *vC07lazy) Close() error { *l.log = append(*l.log, "lazy-close"); return nil }
+func (l *vC07lazy) Flush() error {
+	*l.log = append(*l.log, "flush")
+	return errors.New("remote closed for reading")
+}
 
 func VerifC07cStreamWrapper() {
 	st := &vC07stream{}
